@@ -10,7 +10,28 @@ import GEVerif.Drive.C07
 namespace GEVerif.Drive.C01
 open GEVerif Sexp GEVerif.Drive
 
+mutual
+/-- the type with every refinement erased (`Annotated[T, mh]` ↦ `T`) -/
+def stripTy : Ty → Ty
+  | .list t => .list (stripTy t)
+  | .tuple ts => .tuple (stripTys ts)
+  | .union ts => .union (stripTys ts)
+  | .ann t _ => stripTy t
+  | t => t
+def stripTys : List Ty → List Ty
+  | [] => []
+  | t :: ts => stripTy t :: stripTys ts
+end
+
+/-- the grammar with all refinements erased: well-typedness for it is C01's structural part
+(refinement satisfaction is C02's) -/
+def stripSpec (g : GrammarSpec) : GrammarSpec :=
+  { g with classes := g.classes.map fun c => { c with fields := c.fields.map fun (n, t) => (n, stripTy t) } }
+
 def handle : List Sexp → Option Sexp
+  | [atom "prop_wt_struct", spec, v] => do
+      let g := analyse (stripSpec (← parseSpec spec))
+      pure (ofBool (wt g [] (.cls g.spec.start) (← parseVal v)))
   | [atom "create", spec, dec, draws] => do
       let g := analyse (← parseSpec spec)
       let dec ← parseDecider dec
